@@ -1,6 +1,6 @@
 //verif:package github.com/kstenerud/go-concise-encoding/internal/verifh/c23
 //verif:config cap=300 maxsec=1800
-//verif:bounds quick: typed arrays uint8/uint16 of 2 elements (every bit symbolic), bit arrays <= 9 bits, strings/resource ids/custom text of 2 symbolic bytes (multi-byte UTF-8 lead/continuation bytes included), media and custom binary <= 3 bytes; thorough: also int16/uint32, 3 elements, 16 bits, 3-byte plain strings, map-value position; each re-chunked into 2 chunks at every element boundary and each chunk's bytes split into 2 data events at every byte (mid-element, mid-character); one chunk of 3 uint16 elements as 3 data events at every pair of split points; array as top-level value, list element and map value
+//verif:bounds quick: typed arrays uint8/uint16 of 2 elements (every bit symbolic), bit arrays <= 9 bits, strings/resource ids/custom text of 2 symbolic bytes (multi-byte UTF-8 lead/continuation bytes included), media and custom binary <= 3 bytes; thorough: also int16/uint32, 3 elements, 11 bits, 3-byte plain strings, map-value position; each re-chunked into 2 chunks at every element boundary and each chunk's bytes split into 2 data events at every byte (mid-element, mid-character); one chunk of 3 uint16 elements as 3 data events at every pair of split points; array as top-level value, list element and map value
 //verif:assume fmt.Sprintf on symbolic integers is the engine's model (self-test T00 proves it equal to strconv for all 8/16-bit values); float arrays (strconv float text) and decode-then-re-encode idempotence (ANTLR) are outside reach
 package c23
 
@@ -140,8 +140,8 @@ func Verif_C23_ThreeDataEvents() {
 func Verif_C23_BitArrays() {
 	nbytes := verifrt.Choice("bytes", 2) + 1 // every bit is a branch in the encoder: 2^bits paths
 	bitsLast := []int{1, 3, 8}[verifrt.Choice("bitsLast", 3)]
-	if !verifrt.Thorough() && nbytes == 2 {
-		bitsLast = 1
+	if nbytes == 2 && (!verifrt.Thorough() || bitsLast == 8) {
+		bitsLast = 1 // 16 bits (2^16 paths per position and split) do not finish within the thorough budget: thorough stops at 11 bits
 	}
 	data := verifrt.Bytes("d", nbytes)
 	// unused high bits of the last byte are zero (as the marshaler produces them)
